@@ -1321,7 +1321,8 @@ def diff_cases(ctx, rng, mk):
                     yield mk('PartialDerivative', 'space={} axis={} method={} pad={}'.format(
                         tag, axis, method, pad),
                         lambda S=S, axis=axis, method=method, pad=pad:
-                        odl.PartialDerivative(S, axis, method=method, pad_mode=pad))
+                        odl.PartialDerivative(S, axis, method=method, pad_mode=pad),
+                        ('partialderiv', S, axis, method, pad))
                 if not admits(S, pad, range(S.ndim)):
                     continue
                 if stratum(S, range(S.ndim)):
@@ -1687,6 +1688,12 @@ def emit(tb, spec):
     elif k == 'cembed':
         _, S, s = spec
         t.append('cemb;{};{};{}'.format(tb.sp(S), tb.sp(S.complex_space), cs(s)))
+    elif k == 'partialderiv':
+        # round 4: PartialDerivative = the C13 `finite_diff` model (generated tables) along `axis`
+        _, S, axis, method, pad = spec
+        q = int(np.prod(S.shape[axis + 1:], dtype=int))
+        t.append('pderiv;{};{};{};{};{};{}'.format(tb.sp(S), S.shape[axis], q, method, pad,
+                                                 fs(float(S.cell_sides[axis]))))
     elif k == 'matrixaxis':
         # round 4: MatrixOperator along `axis` of an n-d tensor, shape (p, n, q) -> (p, m, q);
         # `cw` mirrors the code's own test `getattr(weighting, 'const', None)` on both sides
@@ -1985,8 +1992,12 @@ def gen_tree(rng, sps, dom, ran, depth, allow_cplx_scalar=True):
             return odl.PowerOperator(dom, 2), ('nonlin', dom, dom), False
         if dom == ran and is_discr(dom) and not cd and rng.random() < 0.5:
             # opaque operand (no executable model): finite difference with an adjoint
-            op = odl.PartialDerivative(dom, 0, method=rng.choice(['forward', 'backward', 'central']),
-                                       pad_mode=rng.choice(['constant', 'symmetric']))
+            method = rng.choice(['forward', 'backward', 'central'])
+            pad = rng.choice(['constant', 'symmetric'])
+            op = odl.PartialDerivative(dom, 0, method=method, pad_mode=pad)
+            if rng.random() < 0.6:
+                # round 4: the finite-difference leaf of the model (generated C13 tables)
+                return op, ('partialderiv', dom, 0, method, pad), False
             return op, ('opaque', op, dom, dom), False
         if dom == ran:
             k = rng.randint(0, 3)
@@ -2342,7 +2353,7 @@ def run(ctx):
         'functionals (ScalingFunctional/IdentityFunctional/ZeroFunctional are in the zoo); '
         'PointwiseInnerBase is abstract')
     ctx.extra['classes_tested_only(opaque leaves, no executable model)'] = sorted(
-        c for c in covered if c in ('PartialDerivative', 'Gradient', 'Divergence', 'Laplacian',
+        c for c in covered if c in ('Gradient', 'Divergence', 'Laplacian',
                                     'ResizingOperator', 'ResizingOperatorAdjoint') or c in APPROX)
     n_trees = 300 if ctx.quick else 6000
     run_trees(ctx, n_trees, 3 if ctx.quick else 4, batch)
@@ -2352,7 +2363,7 @@ def run(ctx):
                 'flatteninv', 'proj', 'projadj', 'sum', 'comp', 'lsc', 'rsc', 'lvec', 'rvec',
                 'flv', 'blocks/pso', 'blocks/bcast', 'blocks/red', 'blocks/diag', 'nonlin',
                 'opaque', 'sampling-nd', 'wsum-nd', 'flatten-F', 'flatteninv-F',
-                'matrixaxis/const', 'matrixaxis/bare-transpose'}
+                'matrixaxis/const', 'matrixaxis/bare-transpose', 'partialderiv'}
     unhit = sorted(b for b in expected if 'model/' + b not in ctx.branches)
     unhit += sorted(b for b in EXPECTED_STRATA if b not in ctx.branches)
     ctx.extra['unhit_model_branches'] = unhit
